@@ -74,6 +74,7 @@ type Config struct {
 	Races       bool  // run the happens-before detector
 	Preempt     bool  // record scheduling alternatives (false: only select/map/pool/env choices are points)
 	TraceOps    bool  // keep the full operation trace (for determinism checks and reports)
+	Lenient     bool  // a replayed choice beyond the number of alternatives is reduced modulo it instead of being an error
 }
 
 // Exec is the result of one execution.
@@ -390,6 +391,9 @@ func (s *sched) choose(kind string, n int, curFirst bool, desc func() string) in
 	c := 0
 	if i < len(s.cfg.Choices) {
 		c = s.cfg.Choices[i]
+		if s.cfg.Lenient && c >= 0 {
+			c = c % n
+		}
 		if c >= n || c < 0 {
 			s.diverged = fmt.Sprintf("choice %d at point %d (%s) out of range (%d alternatives): the execution does not replay deterministically", c, i, kind, n)
 			s.fail(&Failure{Kind: "diverged", Msg: s.diverged})
